@@ -426,7 +426,11 @@ type chanUse struct {
 }
 
 func (p *Prog) chanUses() []chanUse {
+	if p.chanUsesMemo != nil {
+		return p.chanUsesMemo
+	}
 	var out []chanUse
+	defer func() { p.chanUsesMemo = out }()
 	for _, f := range p.Funcs {
 		allInstrs(f, func(i ssa.Instruction) {
 			switch x := i.(type) {
